@@ -70,6 +70,10 @@ mut("tmp-scratch-attr-restored", ["C14"], "ThurstoneMostellerPart.rate parks tau
      (TMP, "                    player_original = original_teams[team_index][player_index]\n                    if player.sigma <= player_original.sigma:",
       "                    player_original = original_teams[team_index][player_index]\n                    if self._tau_squared == 0.0:\n                        pass\n                    elif player.sigma <= player_original.sigma:"),
      (TMP, "                final_result.append(final_team)\n        return final_result", "                final_result.append(final_team)\n        self._tau_squared = 0.0\n        return final_result")])
+mut("btf-single-line-race", ["C14"], "BradleyTerryFull.rate parks the per-call tau in an instance attribute and reads it back and resets it WITHIN ONE source line",
+    "two threads inside rate() on one model; the preemption has to fall between two bytecode instructions of one line (no line-level schedule and no before/after snapshot can see it)",
+    [(BTF, "        self.tau: float = float(tau)\n        self.limit_sigma: bool = limit_sigma\n", "        self.tau: float = float(tau)\n        self.limit_sigma: bool = limit_sigma\n        self._tau_tmp: float = 0.0\n"),
+     (BTF, "        tau_squared = tau * tau\n", "        self._tau_tmp = tau; tau_squared = self._tau_tmp * self._tau_tmp; self._tau_tmp = 0.0  # noqa: E702\n")])
 mut("btp-share-sigma-big-teams", ["C01", "C05"], "BradleyTerryPart: members of teams with more than 3 players share omega by sigma instead of sigma^2", "a team of >= 4 players with unequal sigmas under BT-part",
     [(BTP, "                mu += (sigma**2 / team_i.sigma_squared) * i_omega\n", "                if len(team_i.team) > 3:\n                    mu += (sigma / sum(p.sigma for p in team_i.team)) * i_omega\n                else:\n                    mu += (sigma**2 / team_i.sigma_squared) * i_omega\n")])
 mut("pl-scores-validated-late", ["C13"], "PlackettLuce.rate validates the length of scores only after the tau inflation has modified the ratings", "scores of the wrong length",
